@@ -629,7 +629,9 @@ class Machine:
     def byte(self, area, off):
         m = self.mem[area]
         if off not in m:
-            m[off] = self.rng.getrandbits(8) | 0x80
+            # incoming bytes: random with the top bit set (so that a missing sign extension shows); destination area: a fixed pattern that is
+            # neither 0x00 nor 0xFF, so a byte the shuffle should have written (zero / sign fill) can never be right by accident
+            m[off] = (self.rng.getrandbits(8) | 0x80) if area == 0 else (0xA5 ^ (off & 0x0F))
         return m[off]
 
     def load(self, area, off, nbytes):
